@@ -9,6 +9,9 @@ R == Rec[l]
 ObsMatches(o, s) ==
     /\ \A k \in Keys : o.verifies[k] = Obs(s).verifies[k]
     /\ (s \in Keys => o.signed_by = s)              \* exactly that key's id is reported
+    \* after a clear nobody has signed: a signer id still being reported means an older signature is
+    \* still embedded, which its key would verify - contradicting "iff ... since the last clear"
+    /\ (s = "none" => o.signed_by = "none-reported")
     /\ o.digests_ok = TRUE /\ o.header_same = TRUE /\ o.payload_same = TRUE
     /\ o.panicked = FALSE
 
